@@ -463,8 +463,16 @@ func symbolicStringFunc(fr *frame, name string, args []value) (value, bool) {
 		// decimal rendering of a symbolic number: an opaque string. Nothing
 		// is known about it, so anything that branches on it is explored both
 		// ways; native path validation catches a use that matters.
+		if len(args) > 1 {
+			if base, isInt := args[1].(int); !isInt || base != 10 {
+				return symStr{mkVar(fr.i.ps.freshName("itoa"), sortStr)}, true
+			}
+		}
 		if si, ok := fr.i.ps.resolveValue(args[0]).(symInt); ok {
-			return symStr{opaqueStringOf("itoa", si.t)}, true
+			if _, signed := kindBits(si.k); !signed {
+				return symStr{fr.i.ps.opaque("utoa", si.t)}, true
+			}
+			return symStr{fr.i.ps.opaque("itoa", si.t)}, true
 		}
 		if sb, ok := fr.i.ps.resolveValue(args[0]).(symBool); ok {
 			return symStr{opaqueStringOf("btoa", sb.t)}, true
